@@ -19,7 +19,14 @@ OUT = C12.OUT + "; allocation failures inside the prefix; event.c's event_mm_* f
 TEXT = ("For every fault schedule of the final step: a reported failure leaves length, contents (and callback counters) equal to the pre-state "
         "model, reported success means the model's full effect, a failure is only reported if an allocation really failed (or the buffer is "
         "frozen), the chain invariant holds and live allocations equal the objects reachable from the buffers (no leak).")
-NOTE = C12.NOTE
+NOTE = ("Trusted base as C12. Fault schedule: the f-th allocation of the final step fails, f in 0..VP_FAILN (2, or 3 for add_iovec / "
+        "add_buffer_reference), chosen by the solver; each (size, f) pair gets its own copy of the step so a failed allocation is a concretely "
+        "NULL pointer there (a merged 'NULL or object' pointer made a single add cost 10 GB); the harness asserts the step makes no more "
+        "allocations than fault positions. props/C14_nofail.json lists the (prefix, step) pairs that never allocate (calibrated by a run with "
+        "the failure-path witness demanded everywhere); all others must reach the 'failed because an allocation failed' witness. "
+        "Findings fixed on the pinned tree (fixes/C14-*.diff, each reproduced natively, obligations fail on the pre-fix code): evbuffer_prepend "
+        "partial copy before the failing allocation (prepend3__prepend, add15_drain4__prepend), evbuffer_remove_buffer ignoring evbuffer_add's "
+        "result (*__removebuf), evbuffer_add_buffer_reference reporting success after APPEND_CHAIN_MULTICAST ran out of memory (*__addbufref).")
 ASSUMPTIONS = [a for a in C12.ASSUMPTIONS if not a.startswith("allocation never fails")] + \
               ["evbuffer_remove_buffer / evbuffer_add_iovec may report a partial count when an allocation failed; the reported count is then what must have happened"]
 DESIGN_REF = "DESIGN.md §5 C14"
